@@ -961,7 +961,10 @@ class BlockwiseRequest(BaseUnicastRequest, interfaces.Request):
                 block_cursor += 1
 
             while block1.size_exponent < size_exp:
-                block_cursor *= 2
+                if size_exp != 7:
+                    # BERT (7) counts in the same 1024 byte blocks as size
+                    # exponent 6 does; only the smaller sizes halve
+                    block_cursor *= 2
                 size_exp -= 1
 
             if not current_block1.opt.block1.more:
